@@ -272,6 +272,14 @@ def mon_C05(case, toks):
     return None
 
 
+def spurious_unwind(p, what):
+    """a poll that unwinds (E:X) although no child's poll panicked in it: no property lets a combinator panic by itself
+       (theorems Cxx_*_unwinds_only_on_child_panic for race, race_ok, chain, wait_until; poll_live for the scan family)"""
+    if p["ret"] is not None and p["ret"][0] == "X" and not any(a == "X" for (_, _, a, _) in p["cps"]):
+        return f"{what} unwound in a poll in which no child panicked"
+    return None
+
+
 # ------------------------------------------------------------------------------------------------ C06 / C07
 def mon_C06(case, toks):
     if case.comb != "race":
@@ -285,6 +293,8 @@ def mon_C06(case, toks):
             if a == "R":
                 won = (c, v)
         ret = p["ret"]
+        if case.n > 0 and spurious_unwind(p, "race"):        # (a race over zero futures panics, as documented)
+            return spurious_unwind(p, "race")
         if ret is None or ret[0] == "X":
             return None if ret else None
         if won is not None:
@@ -357,6 +367,8 @@ def mon_C08(case, toks):
             elif a == "E":
                 ended.add(c)
         ret = p["ret"]
+        if spurious_unwind(p, "merge"):
+            return spurious_unwind(p, "merge")
         if ret is None or ret[0] == "X":
             return None
         if item is not None:
@@ -389,6 +401,8 @@ def mon_C09(case, toks):
             elif a == "E":
                 ended = c
         ret = p["ret"]
+        if spurious_unwind(p, "zip"):
+            return spurious_unwind(p, "zip")
         if ret is None or ret[0] == "X":
             return None
         if ended is not None:
@@ -434,6 +448,8 @@ def mon_C10(case, toks):
             elif a == "E":
                 idx += 1
         ret = p["ret"]
+        if spurious_unwind(p, "chain"):
+            return spurious_unwind(p, "chain")
         if ret is None or ret[0] == "X":
             return None
         if got is not None:
@@ -801,6 +817,8 @@ def mon_C19(case, toks):
                     return "the inner was polled before the deadline resolved"
                 inner.append((a, v))
         ret = p["ret"]
+        if spurious_unwind(p, "wait_until"):
+            return spurious_unwind(p, "wait_until")
         if ret is None or ret[0] == "X":
             return None
         if started and not inner:
